@@ -170,11 +170,36 @@ def extracted_bucket_run(repo):
                              "tb_run_fx", TB_RUN_FX_CONS, TB_RUN_REQ_CONS, exn_cons=[("ExOutNone", "")], types="tb_run")
 
 
+# TwoRateTokenBucket.run likewise: Gen/Extracted_tworate_run.v; bridged to RInit / RGet / RTimer of Elem/TwoRate.v by
+# coq/Elem/TwoRateRunBridge.v; obligations in Props/C11_BridgeRunTR.v
+TR_RUN_STATE = [("current_bucket_commit", "Q"), ("current_bucket_peak", "Q"), ("update_time", "Q"), ("packets_sent", "Z")]
+TR_RUN_READS = [("self.cbs", "cbs", "Q"), ("self.cir", "cir", "Q"),
+                ("self.pir", "pir", "optQ"), ("self.pbs", "pbs", "optQ"),                  # None | number
+                ("self.current_bucket_peak is not None", "peak_level_set", "bool"),        # the assert under `if self.pir:`
+                ("env.now", "now", "Q"), ("self.env.now", "now", "Q"),
+                ("packet.size", "size", "Z"),
+                ("self.out", "out_set", "optobj"), ("self.debug", "debug", "bool")]
+TR_RUN_FX = [("self.out.put(packet)", "FxOutPut", []),
+             ('packet.color = "red"', "FxRed", []), ('packet.color = "yellow"', "FxYellow", []),
+             ('packet.color = "green"', "FxGreen", [])]
+TR_RUN_FX_CONS = [("FxOutPut", "(packets_sent : Z)"), ("FxRed", ""), ("FxYellow", ""), ("FxGreen", "")]
+
+
+def extracted_tworate_run(repo):
+    import os
+    from vlib import translate_gen as tg
+    spec = tg.GenSpec(os.path.join(repo, "onl", "netdev", "two_level_token_bucket.py"), "TwoRateTokenBucket", "run",
+                      "gen_TwoRate_run", reads=TR_RUN_READS, effects=TR_RUN_FX, requests=TB_RUN_REQUESTS, objects=["packet"],
+                      sees=TB_RUN_SEES)
+    return tg.gen_run_module("onl/netdev/two_level_token_bucket.py: TwoRateTokenBucket.run", spec, TR_RUN_STATE, "tr_run_st",
+                             "tw_", "tr_run_fx", TR_RUN_FX_CONS, TB_RUN_REQ_CONS, types="tr_run")
+
+
 class BucketPart:
     name = "bucket"
     kinds = ["tb", "trtb", "tb2", "trtb2"]
     serves = ["C11", "C08"]
-    props_files = {"C11": ["Props/C11.v", "Props/C11_BridgePut.v", "Props/C11_BridgeRun.v"], "C08": ["Props/C08_Bucket.v"]}
+    props_files = {"C11": ["Props/C11.v", "Props/C11_BridgePut.v", "Props/C11_BridgeRun.v", "Props/C11_BridgeRunTR.v"], "C08": ["Props/C08_Bucket.v"]}
 
     # ---- second tie (put bodies): regenerate before the Coq build (fail closed) ----------------------------
     def pre_build(self, prop_id):
@@ -185,6 +210,7 @@ class BucketPart:
         from vlib import translate as tr
         tr.write_if_changed(os.path.join(fw.COQ, "Gen", "Extracted_bucketput.v"), extracted_bucketput(fw.REPO))
         tr.write_if_changed(os.path.join(fw.COQ, "Gen", "Extracted_bucket_run.v"), extracted_bucket_run(fw.REPO))
+        tr.write_if_changed(os.path.join(fw.COQ, "Gen", "Extracted_tworate_run.v"), extracted_tworate_run(fw.REPO))
 
     coq_imports = ["From ONL Require Import Base.Cmp Elem.Packet Elem.StoreQ Elem.Bucket Elem.TwoRate."]
     weight = 1
@@ -214,8 +240,9 @@ class BucketPart:
                 "props/part_bucket.py) regenerates coq/Gen/Extracted_bucket_run.v from TokenBucket.run before every build; the "
                 "C11_gen_tb_run_* theorems (Props/C11_BridgeRun.v, proofs Elem/BucketRunBridge.v) prove the TInit / TGet / TTimer "
                 "steps of the TokenBucket automaton -- refill, token wait, debit, peak spacing -- equal to the generated functions; "
-                "TwoRateTokenBucket.run is not covered by this tie (correspondence only); that the kernel resumes the generator "
-                "exactly at these steps stays with the per-run correspondence"],
+                "likewise coq/Gen/Extracted_tworate_run.v from TwoRateTokenBucket.run and the C11_gen_tr_run_* theorems "
+                "(Props/C11_BridgeRunTR.v, proofs Elem/TwoRateRunBridge.v) for RInit / RGet / RTimer of the two-rate automaton; that "
+                "the kernel resumes the generators exactly at these steps stays with the per-run correspondence"],
         "C08": ["float rounding is outside the theorems (dyadic workloads)"],
     }
     assumptions = {
